@@ -303,6 +303,8 @@ add(
     H("k_decimal_try_add_digit", "number", ["C01", "C07"], ["sonic_number::decimal::Decimal::try_add_digit"], "every digit count 0..=MAX_DIGITS+4 x every digit (complete)", cost=2),
     H("k_decimal_round_6", "number", ["C07"], ["sonic_number::decimal::Decimal::round"],
       "every trimmed decimal of <= 6 significant digits x decimal point in -1..=7 x truncated flag", cost=11),
+    H("k_number_classification", "main", ["C07"], ["impl From<ParserNumber> for Number", "Number::{is_u64,is_i64,is_f64,as_u64,as_i64,as_f64,from_f64}", "impl From<i64/u64> for Number"],
+      "every u64, every negative i64, every finite f64 (complete)", cost=2),
     H("k_pow10_tables", "number", ["C07"], ["POW10_FLOAT", "POW10_UINT"], "all 23 / 18 entries (complete)", cost=1),
 )
 
